@@ -336,7 +336,7 @@ pub fn run(tier: &str, seed: u64) -> i32 {
     let g = quick_graph(if thorough { 3 } else { 2 });
     let budget = Budget {
         max_depth: g.max_edges as u32,
-        wall: Duration::from_secs(if thorough { 1500 } else { 50 }),
+        wall: Duration::from_secs(if thorough { 1500 } else { 150 }),
         max_states: 5_000_000,
     };
     report.add(explore(&g, &budget, seed, |s, ctx| {
